@@ -272,7 +272,7 @@ class SolverPool:
         self.counts = {"sat": 0, "unsat": 0, "unknown": 0, "error": 0}
         self.log = []  # (key, text) of unsat queries, for the second-solver cross-check
 
-    def solve(self, tasks, timeout_ms=None, keep_unsat=True):
+    def solve(self, tasks, timeout_ms=None, keep_unsat=True, _retry=False):
         """tasks: iterable of (key, smt_text). Returns dict key -> (status, witness|reason, secs)."""
         if timeout_ms is None:
             timeout_ms = 5000 if tier() == "quick" else 60000
@@ -293,6 +293,14 @@ class SolverPool:
             if status == "unsat" and keep_unsat:
                 self.log.append((key, texts[key]))
             out[key] = (status, w, secs)
+        # one retry of undecided queries with a six times longer timeout
+        retry = [(k, texts[k], timeout_ms * 6) for k, v in out.items() if v[0] == "unknown"]
+        if retry and not _retry:
+            self.counts["unknown"] -= len(retry)
+            self.queries -= len(retry)
+            again = self.solve([(k, t) for k, t, _ in retry], timeout_ms=timeout_ms * 6,
+                               keep_unsat=keep_unsat, _retry=True)
+            out.update(again)
         return out
 
     def close(self):
